@@ -45,6 +45,8 @@ var diagCoqNames = map[string]string{
 	"string": "TString", "type": "TType",
 }
 
+var sharedTokenQueue col.QueueLike[cdc.TokenLike]
+
 type obsTok struct {
 	typ       cdc.TokenType
 	val       string
@@ -67,7 +69,14 @@ func (t obsTok) coq() string {
 // scanAll runs the real scanner on src with a queue large enough for every token.
 func scanAll(src string) []obsTok {
 	n := len([]rune(src)) + 4
-	q := col.Queue[cdc.TokenLike](sharedNotation).MakeWithCapacity(uint(n))
+	// the same queue serves consecutive scans (it is empty again after each EOF) unless the text is too long for it
+	if sharedTokenQueue == nil {
+		sharedTokenQueue = col.Queue[cdc.TokenLike](sharedNotation).MakeWithCapacity(4096)
+	}
+	q := sharedTokenQueue
+	if n > 4096 {
+		q = col.Queue[cdc.TokenLike](sharedNotation).MakeWithCapacity(uint(n))
+	}
 	cdc.Scanner().Make(src, q)
 	var toks []obsTok
 	for {
@@ -150,8 +159,8 @@ func classifyParsePanic(e any) parseObs {
 	return parseObs{kind: "panic", code: 0, msg: first}
 }
 
-// observeParse calls ParseSource on the given notation under a watchdog.
-func observeParse(notation col.NotationLike, src string, watchdog time.Duration) parseObs {
+// observeParse calls ParseSource (of a notation or of one parser instance) under a watchdog.
+func observeParse(parse func(string) any, src string, watchdog time.Duration) parseObs {
 	ch := make(chan parseObs, 1)
 	go func() {
 		var o parseObs
@@ -161,7 +170,7 @@ func observeParse(notation col.NotationLike, src string, watchdog time.Duration)
 			}
 			ch <- o
 		}()
-		v := notation.ParseSource(src)
+		v := parse(src)
 		o = parseObs{kind: "value"}
 		func() {
 			defer func() {
@@ -243,7 +252,7 @@ func perturbHook(kind int, queue any) {
 }
 
 // parses src three more times on the same notation under different perturbations
-func perturbedRuns(notation col.NotationLike, src string, seed uint64, first string) (stable bool, note string) {
+func perturbedRuns(parse func(string) any, src string, seed uint64, first string) (stable bool, note string) {
 	stable = true
 	hookSeed = seed
 	for mode := 1; mode <= 3; mode++ {
@@ -253,7 +262,7 @@ func perturbedRuns(notation col.NotationLike, src string, seed uint64, first str
 			old = runtime.GOMAXPROCS(1)
 		}
 		col.VerifHook = perturbHook
-		o := observeParse(notation, src, 5*time.Second)
+		o := observeParse(parse, src, 5*time.Second)
 		col.VerifHook = nil
 		if mode == 2 {
 			runtime.GOMAXPROCS(old)
@@ -310,10 +319,21 @@ func cxTable(toks []obsTok) string {
 			continue
 		}
 		seen[t.val] = true
-		c, err := strconv.ParseComplex(t.val, 128)
-		if err != nil {
+		// the value the repaired parser gives the literal: real ± imaginary, each float with its own sign
+		m := cdc.Scanner().MatchToken(cdc.ComplexToken, t.val)
+		if m.GetSize() < 3 {
 			continue
 		}
+		f1, f2 := m.GetValue(2), m.GetValue(3)
+		re, err1 := strconv.ParseFloat(f1, 64)
+		im, err2 := strconv.ParseFloat(f2, 64)
+		if err1 != nil || err2 != nil {
+			continue
+		}
+		if t.val[1+len(f1)] == '-' {
+			im = -im
+		}
+		c := complex(re, im)
 		n := complex(real(c)+0, imag(c)+0)
 		out = append(out, fmt.Sprintf("(%s, %s, (%s, %s))", encFloatBits(real(c)), encFloatBits(imag(c)), encFloatBits(cmplx.Abs(n)), encFloatBits(cmplx.Phase(n))))
 	}
@@ -329,7 +349,8 @@ var litHex = []string{"0x0", "0x1", "0xa", "0xff", "0xdeadbeef", "0xffffffffffff
 var litFloats = []string{"0.0", "-0.0", "+0.0", "1.5", "-1.25", "+3.0", "0.1", "0.125", "123.456", "1.0e+10", "1.0E-7", "2.5E+3", "1.1E-100", "2.2E+200",
 	"1.7976931348623157e+308", "5.0e-324", "4.9E-324", "1.0e-999", "0.30000000000000004", "9007199254740993.0", "1.0e+5", "1.0e+15", "1.0e+123",
 	"10.01", "0.5e+1", "-2.0E-12", "100.0"}
-var litComplex = []string{"(1.5+2.5i)", "(0.0+0.0i)", "(-1.5-2.5i)", "(3.0-4.0i)", "(1.0e+5-2.0E-3i)", "(+1.0+-2.0i)", "(-0.0-0.0i)", "(1.0+2.0e+10i)",
+var litComplex = []string{"(1.0--2.0i)", "(1.0++2.0i)", "(1.0-+2.0i)", "(1.0+-2.0i)", "(-1.0--0.0i)", "(+1.5e+3-+2.5E-3i)", "(1.5E-3--2.5e+30i)", "(0.0++0.0i)", "(0.0-+0.0i)",
+	"(1.0e+308--1.0e+308i)", "(5.0e-324-5.0e-324i)", "(1.5+2.5i)", "(0.0+0.0i)", "(-1.5-2.5i)", "(3.0-4.0i)", "(1.0e+5-2.0E-3i)", "(+1.0+-2.0i)", "(-0.0-0.0i)", "(1.0+2.0e+10i)",
 	"(0.25-0.5i)", "(1.0E-7+1.0E+7i)"}
 var litRunes = []string{`'a'`, `'Z'`, `'0'`, `' '`, `'"'`, `'\''`, `'\\'`, `'\n'`, `'\t'`, `'\a'`, `'\b'`, `'\f'`, `'\r'`, `'\v'`, `'\x41'`, `'\xff'`, `'\x00'`,
 	`'☺'`, `'é'`, `'\U0001f600'`, `'\U0010ffff'`, `'☺'`, `'😀'`, `'é'`, `'['`, `','`, `'퟿'`, `''`}
@@ -340,8 +361,7 @@ var litWords = []string{"true", "false", "nil"}
 
 // literals that the scanner accepts but that have no exact value: must be rejected
 var litInexact = []string{"99999999999999999999", "-9223372036854775809", "9223372036854775808", "+9223372036854775808", "0x10000000000000000",
-	"0xfffffffffffffffff", `"abc\ud800"`, `"\'"`, `'\"'`, `'\ud800'`, `'\udfff'`, `'\U00110000'`, `"\U00110000"`, `'\Uffffffff'`, "(1.0--2.0i)", "(1.0++2.0i)",
-	"(1.0-+2.0i)", "1.0e+999", "-1.0e+999", "(1.0e+999+1.0i)", "(1.0+1.0e+999i)", `"\q"`, `"\"`, `'\'`, `"\x4"`, `"\x4g"`, `"\u12"`, `"a\`, `"\8"`, `"\400"`, `"\12"`,
+	"0xfffffffffffffffff", `"abc\ud800"`, `"\'"`, `'\"'`, `'\ud800'`, `'\udfff'`, `'\U00110000'`, `"\U00110000"`, `'\Uffffffff'`, "(1.0--1.0e+999i)", "(1.0e+999++2.0i)", "1.0e+999", "-1.0e+999", "(1.0e+999+1.0i)", "(1.0+1.0e+999i)", `"\q"`, `"\"`, `'\'`, `"\x4"`, `"\x4g"`, `"\u12"`, `"a\`, `"\8"`, `"\400"`, `"\12"`,
 	`"abc\"`, `"\U0001f60"`}
 
 var contextsAll = []string{"Array", "Catalog", "List", "Map", "Queue", "Set", "Stack"}
@@ -409,7 +429,7 @@ func (g *docGen) intrinsic() string {
 		return g.pickLit(litFloats)
 	case 7:
 		if g.r.chance(1, 3) {
-			return "(" + g.pickLit(litFloats) + []string{"+", "-"}[g.r.intn(2)] + strings.TrimLeft(g.pickLit(litFloats), "+-") + "i)"
+			return "(" + g.pickLit(litFloats) + []string{"+", "-"}[g.r.intn(2)] + g.pickLit(litFloats) + "i)"
 		}
 		return g.pickLit(litComplex)
 	case 8, 9:
@@ -652,7 +672,7 @@ var coreTexts = []string{
 	"\t", "[\t](List)", "[ ]\t(List)", "\r\n", "[1,\r\n2](List)", "\x00", "\a", "\b", "\f", "\v", "\x1b", "\x7f", "\xff", "[\xff](List)", "\"\xff\"", "'\xff'", "\xc3\x28", "\xe2\x82", "é", "[é](List)",
 	"[1, 2](List)\n\n\n", "[1, 2](List)\n \n", "[1, 2](List) \n", "[1, 2](List)\n1", "[1, 2](List)\n\n[", "\n[1](List)", " [1](List)", "[  1  ,  2  ](  List  )",
 	"[\n    1\n\n    2\n](List)", "[\n    1\n    2\n\n](List)", "[\n    1,\n    2\n](List)", "[1,\n2](List)", "[1\n, 2](List)",
-	"[99999999999999999999](List)", "[-9223372036854775809](List)", "[0x10000000000000000](List)", "[1.0e+999](List)", "[(1.0--2.0i)](List)", "[\"abc\\ud800\"](List)", "['\\xff'](List)",
+	"[99999999999999999999](List)", "[-9223372036854775809](List)", "[0x10000000000000000](List)", "[1.0e+999](List)", "[(1.0--2.0i)](List)", "[(1.0++2.0i), (1.0-+2.0i), (1.0+-2.0i), (-0.0--0.0i)](List)", "[(1.5e+3--2.5E-3i): (+1.0E+2++1.0e-2i)](Catalog)", "[\"abc\\ud800\"](List)", "['\\xff'](List)",
 	"[1, 2, 3, 4, 5, 6, 7, 8, 9, 10, 11, 12, 13, 14, 15, 16, 17](Queue)", "[1, 2, 3, 4, 5, 6, 7, 8, 9, 10, 11, 12, 13, 14, 15, 16, 17, 18, 19, 20](Stack)",
 	"[$, 2, 3, 4, 5, 6, 7, 8, 9, 10, 11, 12, 13, 14, 15, 16, 17](List)", "[1 2, 3, 4, 5, 6, 7, 8, 9, 10, 11, 12, 13, 14, 15, 16, 17](List)", "[1, 2](Catalog), 3, 4, 5, 6, 7, 8, 9, 10, 11, 12, 13, 14, 15, 16, 17",
 	"[1, 2, 3, 4, 5, 6, 7, 8](List)$", "[1, 2, 3, 4, 5, 6, 7](List)x", "[1, 2, 3, 4, 5, 6](List), , , , , , , , , , , , , , , , ,",
@@ -670,6 +690,10 @@ func nested(depth int, inner string, two bool) string {
 }
 
 // ---------- the generator ----------
+
+// sentences of the grammar in the hand-written reuse sequence: they must be accepted
+var mustAccept = map[string]bool{"[ ](Array)": true, "[1, 2, 3](List)": true, "[\n    \"a\": 1\n](Catalog)\n": true, "[:](Map)": true,
+	"[\n    1\n    2\n](Set)\n": true, "[1](Queue)": true, "[1: 2](Catalog)": true, "[0x1](Stack)": true, "[[ ](List)](List)": true, "[true](Array)\n\n": true}
 
 type pCase struct {
 	src    string
@@ -694,6 +718,13 @@ func genCdcnParse(prop string, seed uint64, tier, outDir string, count int) erro
 	// the texts
 	type text struct{ src, kind string }
 	var texts []text
+	// one parser instance, failing sources (diagnostics raised with 1, 2 and 3 tokens pushed back, an error
+	// token, a kind/context mismatch, an inexact literal) each followed by valid ones
+	for _, s := range []string{"[1, 2](Array) 3", "[ ](Array)", "[1, ](List)", "[1, 2, 3](List)", "[\"a\": 1](Array", "[\n    \"a\": 1\n](Catalog)\n",
+		"[\n    1\n    2](List)", "[ ](Array)", "[\n 1 2", "[:](Map)", "[\n \"k\" 5 [", "[\n    1\n    2\n](Set)\n", "[1, $](List)", "[1](Queue)", "[1, 2](Catalog)",
+		"[1: 2](Catalog)", "[99999999999999999999](List)", "[0x1](Stack)", "[", "[[ ](List)](List)", "[1](List)\n\n[", "[true](Array)\n\n"} {
+		texts = append(texts, text{s, "core-reuse"})
+	}
 	for _, s := range coreTexts {
 		texts = append(texts, text{s, "core"})
 	}
@@ -748,21 +779,51 @@ func genCdcnParse(prop string, seed uint64, tier, outDir string, count int) erro
 	var cases []pCase
 	hookCtr = 0
 	knownLeaked := 0
+	var parser cdc.ParserLike
+	groupLeft := 0
+	var groupHist []string
+	groupRng := newRng(seed ^ 0x5eed)
+	lastKind := ""
 	for i, t := range texts {
 		c := pCase{src: t.src, kind: t.kind}
 		c.toks = scanAll(t.src)
 		baseline := knownLeaked + leakedScanners(knownLeaked) // scanner goroutines left by earlier cases (none on the repaired tree)
-		notation := cdc.Notation().Make()
-		c.obs = observeParse(notation, t.src, 3*time.Second)
+		// One parser instance serves a whole group of consecutive texts (failing and valid ones
+		// mixed), so that state kept between calls on an instance (push-back stack, token queue,
+		// flags) shows up: every call must behave like the model of its text alone.
+		if t.kind == "core-reuse" {
+			// the hand-written reuse sequence always runs on ONE instance
+			if lastKind != "core-reuse" {
+				parser = nil
+			}
+			groupLeft = 1
+		}
+		lastKind = t.kind
+		if parser == nil || groupLeft == 0 {
+			parser = cdc.Parser().Make()
+			groupLeft = 1 + groupRng.intn(8)
+			groupHist = nil
+		}
+		groupLeft--
+		hist := strings.Join(groupHist, " ; ")
+		c.obs = observeParse(parser.ParseSource, t.src, 3*time.Second)
 		c.leak = leakedScanners(baseline) > 0
 		c.stable = true
 		if c.obs.kind != "hang" && len(c.toks) <= 600 && (prop == "C11" || i%3 == 0) {
-			c.stable, c.note = perturbedRuns(notation, t.src, seed+uint64(i), c.obs.coq())
+			c.stable, c.note = perturbedRuns(parser.ParseSource, t.src, seed+uint64(i), c.obs.coq())
 			if leakedScanners(baseline) > 0 {
 				c.leak = true
 			}
 		}
 		knownLeaked = baseline + leakedScanners(baseline)
+		if c.obs.kind == "hang" {
+			parser = nil // a goroutine may still be inside this instance
+		}
+		short := t.src
+		if len(short) > 40 {
+			short = short[:40] + "…"
+		}
+		groupHist = append(groupHist, fmt.Sprintf("%q→%s", short, c.obs.kind))
 		cases = append(cases, c)
 		meta.Steps += len(c.toks)
 		meta.OpHist[strings.SplitN(t.kind, "+", 2)[0]]++
@@ -791,16 +852,68 @@ func genCdcnParse(prop string, seed uint64, tier, outDir string, count int) erro
 			tl = append(tl, fmt.Sprintf("%s %q @%d:%d", strings.TrimPrefix(tokCoqNames[tk.typ], "T"), tk.val, tk.line, tk.pos))
 		}
 		meta.Traces = append(meta.Traces, []string{
-			fmt.Sprintf("source (%s): %q", t.kind, t.src),
+			fmt.Sprintf("source (%s; call %d on one parser instance, earlier calls on it: [%s]): %q", t.kind, len(groupHist), hist, t.src),
 			"observed tokens: " + strings.Join(tl, " | "),
 			"observed ParseSource outcome: " + c.obs.human(),
 			fmt.Sprintf("scanner goroutine left behind: %v", c.leak),
 			fmt.Sprintf("same outcome under perturbed schedules: %v %s", c.stable, c.note),
 		})
 	}
+	// the property's own predicates on the observed behaviour of the real code, per case
+	var predViol []map[string]any
+	knownText := nested(17, "1", true)
+	knownCase := -1
+	depthPanics := 0
+	for i, c := range cases {
+		if c.src == knownText && knownCase < 0 {
+			knownCase = i
+		}
+		var bad []string
+		switch c.obs.kind {
+		case "runtime":
+			bad = append(bad, "C12: ParseSource ended in a Go runtime error: "+c.obs.msg)
+		case "hang":
+			bad = append(bad, "C12: ParseSource did not return within the watchdog time")
+		case "panic":
+			if c.obs.code == 1 {
+				depthPanics++ // the known finding C12-set-depth-limit (reported below, not as a violation)
+			} else {
+				bad = append(bad, "C12: ParseSource panicked with a text that is not a located syntax diagnostic: "+c.obs.msg)
+			}
+		}
+		if c.kind == "core-reuse" && mustAccept[c.src] && c.obs.kind != "value" {
+			bad = append(bad, "C11: a sentence of the grammar was rejected on a parser instance that had parsed other sources before: "+c.obs.human())
+		}
+		if c.leak {
+			bad = append(bad, "C12: a scanner goroutine (frame scanTokens) was still there after ParseSource had returned or panicked")
+		}
+		if !c.stable {
+			bad = append(bad, "C11: re-parsing the same text under a perturbed goroutine schedule gave another outcome: "+c.note)
+		}
+		if len(bad) > 0 {
+			predViol = append(predViol, map[string]any{"case": i, "violated": bad})
+		}
+	}
+	// known finding C12-set-depth-limit: replay the exact input on every run
+	kobs := observeParse(cdc.Notation().Make().ParseSource, knownText, 3*time.Second)
+	kf := map[string]any{"id": "C12-set-depth-limit", "detail": kobs.human(), "input": "a (Set) literal with two members nested 17 (List) levels deep",
+		"other_cases_with_the_same_panic": depthPanics}
+	switch {
+	case kobs.kind == "panic" && kobs.code == 1:
+		kf["still_fails"] = true
+	case kobs.kind == "value" || kobs.kind == "syntax":
+		kf["still_fails"] = false
+	default:
+		kf["still_fails"] = true
+		predViol = append(predViol, map[string]any{"case": knownCase, "violated": []string{"C12: the known-finding input C12-set-depth-limit now ends in a third way: " + kobs.human()}})
+	}
 	meta.Cases = len(cases)
-	meta.Rule = "each case is one source text: hand-written corner texts, every prefix and an illegal character at every token boundary of one multi-line document, deep nests, then seeded random texts (derivations of Syntax.cdsn with every literal class and boundary literal, inline/multi-line/empty forms, all seven contexts; the same with inexact literals and value lists under Catalog/Map; one or two mutations of a derivation — prefix, delete/insert/substitute a rune, swap/delete/duplicate/replace a token, illegal character at a token boundary; arbitrary runes and bytes); a case counts as distinct and non-trivial when its text has at least 3 tokens and differs from every other text of the run"
-	meta.Extra = map[string]any{"core_texts": ncore, "input_kinds": meta.OpHist, "tokens_by_type": meta.TypeHist}
+	meta.Rule = "each case is one source text, parsed on a parser instance (cdcn.Parser().Make()) that serves a random group of 1..8 consecutive texts, failing and valid ones mixed, and scanned into a token queue shared by consecutive scans: hand-written corner texts, every prefix and an illegal character at every token boundary of one multi-line document, deep nests, then seeded random texts (derivations of Syntax.cdsn with every literal class and boundary literal, inline/multi-line/empty forms, all seven contexts; the same with inexact literals and value lists under Catalog/Map; one or two mutations of a derivation — prefix, delete/insert/substitute a rune, swap/delete/duplicate/replace a token, illegal character at a token boundary; arbitrary runes and bytes); a case counts as distinct and non-trivial when its text has at least 3 tokens and differs from every other text of the run"
+	meta.Extra = map[string]any{"core_texts": ncore, "input_kinds": meta.OpHist, "tokens_by_type": meta.TypeHist,
+		"known_finding_observations": []map[string]any{kf}}
+	if len(predViol) > 0 {
+		meta.Extra["predicate_violations"] = predViol
+	}
 	for i := 0; i < 3 && len(cases) > 0; i++ {
 		meta.Samples = append(meta.Samples, meta.Traces[ncore+(i*(len(cases)-ncore))/3])
 	}
